@@ -1270,6 +1270,9 @@ impl ConfigState {
             "the built frontend must carry its bucket's cluster_id"
         );
         tcp_frontends.push(tcp_frontend);
+        // keep the bucket sorted, like the backend lists: equality of two states
+        // must not depend on the order in which their frontends were added
+        tcp_frontends.sort();
         debug_assert_eq!(
             tcp_frontends.len(),
             before + 1,
@@ -1336,6 +1339,7 @@ impl ConfigState {
         }
 
         udp_frontends.push(udp_frontend);
+        udp_frontends.sort();
         Ok(())
     }
 
